@@ -138,3 +138,36 @@ fn verif_iter_map<T, U, F: FnMut(T) -> U>(it: std::vec::IntoIter<T>, f: F) -> (r
     ensures r.remaining().len() == it.remaining().len(),
             forall|i: int| 0 <= i < it.remaining().len() ==> f.ensures((it.remaining()[i],), #[trigger] r.remaining()[i]),
 { it.map(f).collect::<Vec<_>>().into_iter() }
+// ---- reading / copying through handles (assumed std behaviour; write-through model, see DESIGN section 4.3)
+pub uninterp spec fn utf8_decode(b: Seq<u8>) -> Option<Seq<char>>;
+impl ReadHandle {
+    /// std::io::Read::read_to_string on a handle: appends the remaining bytes if they are valid UTF-8
+    #[verifier::external_body]
+    pub fn read_to_string(&mut self, buf: &mut String) -> (r: std::io::Result<usize>)
+        ensures r is Ok ==> utf8_decode(rh_bytes(*old(self)).skip(rh_pos(*old(self)))) is Some
+                    && final(buf)@ == old(buf)@ + utf8_decode(rh_bytes(*old(self)).skip(rh_pos(*old(self))))->Some_0,
+                rh_bytes(*final(self)) == rh_bytes(*old(self)),
+    { unimplemented!() }
+}
+pub assume_specification [String::with_capacity] (n: usize) -> (r: String)
+    ensures r@.len() == 0;
+/// all entries except d are the same up to access times; d may differ arbitrarily
+pub open spec fn changed_only_at(t1: Tree, t2: Tree, d: Seq<char>) -> bool {
+    forall|q: Seq<char>| q != d ==> (#[trigger] t2.contains_key(q) == t1.contains_key(q))
+        && (t1.contains_key(q) ==> t2[q].is_dir == t1[q].is_dir && t2[q].bytes == t1[q].bytes && t2[q].created == t1[q].created && t2[q].modified == t1[q].modified)
+}
+impl World {
+    /// std::io::copy(&mut src, &mut dest): appends everything the reader still yields at the writer's position.
+    /// Write-through model: the destination entry holds the written bytes when the call returns (for MemoryFS this is
+    /// what flush/drop publish - proved in U03 - and sessions are atomic per C01's exclusions).
+    #[verifier::external_body]
+    pub fn io_copy(&mut self, src: &mut Box<ReadHandle>, dest: &mut Box<WriteHandle>) -> (r: std::io::Result<u64>)
+        ensures final(self).mutlog() == old(self).mutlog(),
+                forall|g: Arc<VFS>| g != wh_fs(**old(dest)) && World::indep(wh_fs(**old(dest)), g) ==> #[trigger] final(self).tree(g) == old(self).tree(g),
+                changed_only_at(old(self).tree(wh_fs(**old(dest))), final(self).tree(wh_fs(**old(dest))), wh_dest(**old(dest))),
+                wh_fs(**final(dest)) == wh_fs(**old(dest)) && wh_dest(**final(dest)) == wh_dest(**old(dest)),
+                r is Ok && is_file_at(old(self).tree(wh_fs(**old(dest))), wh_dest(**old(dest))) ==> is_file_at(final(self).tree(wh_fs(**old(dest))), wh_dest(**old(dest)))
+                    && final(self).tree(wh_fs(**old(dest)))[wh_dest(**old(dest))].bytes
+                        == cur_write_spec(wh_buf(**old(dest)), wh_pos(**old(dest)), rh_bytes(**old(src)).skip(rh_pos(**old(src)))),
+    { unimplemented!() }
+}
